@@ -49,6 +49,8 @@ func main() {
 		os.Exit(cmdCheck(os.Args[2:]))
 	case "replay":
 		os.Exit(cmdReplay(os.Args[2:]))
+	case "probes":
+		os.Exit(cmdProbes(os.Args[2:]))
 	default:
 		fmt.Fprintln(os.Stderr, "unknown command", os.Args[1])
 		os.Exit(2)
@@ -416,6 +418,35 @@ func runCheck(o checkOpts) int {
 		"contract_notes":           db.notes,
 		"spec_hashes":              specs.Hashes,
 	}
+	if o.tier == "thorough" && !o.noprobe && o.only == "" {
+		// bounded testing of the real code by the directed probe corpus: a probe that fails
+		// (twice in a row: some probes use wall-clock time) is a failing input; passing probes
+		// prove nothing and are only counted
+		var pres []map[string]any
+		for _, p := range loadProbes(id) {
+			out, failed := runProbe(p, o.repo)
+			if failed {
+				out, failed = runProbe(p, o.repo)
+			}
+			switch {
+			case failed:
+				violations++
+				rp := filepath.Join(outRoot, "replays", id+"-probe-"+sanitize(filepath.Base(p.file))+".json")
+				b, _ := json.MarshalIndent(map[string]any{"property": id, "obligation": "probe:" + filepath.Base(p.file), "probe": p.file,
+					"meaning": "a directed test of the probe corpus fails on the real code: this is a failing input for the property (bounded testing; found although every proof obligation was discharged or independently of them)",
+					"output": out}, "", " ")
+				os.WriteFile(rp, b, 0o644)
+				fmt.Printf("FAILED probe:%s fails on the real code\n%s\n", filepath.Base(p.file), firstN(out, 1200))
+				fmt.Printf("VIOLATION property=%s replay=%s\n", id, rp)
+				pres = append(pres, map[string]any{"probe": p.file, "result": "FAILED"})
+			case strings.Contains(out, "[build failed]") || strings.Contains(out, "[setup failed]"):
+				pres = append(pres, map[string]any{"probe": p.file, "result": "could not be built against this tree (not an alarm)"})
+			default:
+				pres = append(pres, map[string]any{"probe": p.file, "result": "passed"})
+			}
+		}
+		cov["probes_bounded_testing_not_counted_as_proved"] = pres
+	}
 	if o.tier == "thorough" && !o.nocorpus && o.only == "" {
 		res, missed := mustFailCorpus(id, o)
 		cov["must_fail_corpus"] = res
@@ -669,4 +700,32 @@ func uniq(xs []string) []string {
 		out = out[:8]
 	}
 	return out
+}
+
+// cmdProbes runs the directed probe corpus of a property against the real code (bounded
+// testing: a failure is a failing input, a pass proves nothing).
+func cmdProbes(args []string) int {
+	fs := flag.NewFlagSet("probes", flag.ExitOnError)
+	prop := fs.String("property", "", "property id")
+	repo := fs.String("repo", "/repo", "repository root")
+	n := fs.Int("n", 1, "repetitions")
+	fs.Parse(args)
+	rc := 0
+	for _, p := range loadProbes(*prop) {
+		fails := 0
+		var last string
+		for i := 0; i < *n; i++ {
+			out, failed := runProbe(p, *repo)
+			if failed || strings.Contains(out, "[build failed]") || strings.Contains(out, "[setup failed]") {
+				fails++
+				last = out
+			}
+		}
+		fmt.Printf("%s: %d/%d runs failed\n", p.file, fails, *n)
+		if fails > 0 {
+			rc = 1
+			fmt.Println(firstN(last, 1500))
+		}
+	}
+	return rc
 }
